@@ -132,8 +132,8 @@ def model_check(chk, tier, known):
     # random deep behaviours of the 5-node design model (simulation mode), safety clauses only
     if tier != "quick":
         c = consts(5, [], 4, 3, 4, 10)
-        jobs.append(("simulate",) + job("simulate_n5", c, invs=INVS, props=(), simulate="num=4000", depth=90,
-                                        seed=chk.seed, timeout=400, env=JVM_LONG))
+        jobs.append(("simulate",) + job("simulate_n5", c, invs=INVS, props=(), simulate="num=1500", depth=90,
+                                        seed=chk.seed, timeout=240, env=JVM_LONG))
     # fault-free progress (liveness, no state constraint): design and code-as-is
     for nm, dv in (("design", []), ("ascode", known)):
         c = consts(3, dv, 1, 2 if tier == "quick" else 3, 2 if tier == "quick" else 3, 99, loss=False)
